@@ -40,6 +40,8 @@ class State:
         self.old = None         # entry snapshot (env, heap) for old(...)
         self.spec = 0           # >0 while evaluating a specification expression
         self.nofork = 0
+        self.specfork = 0       # >0 inside an inlined spec function: case splits allowed, results merged with ite
+        self.decisions = []
         self.path = ''          # textual trace of branch decisions (debug)
 
     def copy(self):
@@ -53,6 +55,8 @@ class State:
         s.old = self.old
         s.spec = self.spec
         s.nofork = self.nofork
+        s.specfork = self.specfork
+        s.decisions = list(self.decisions)
         s.path = self.path
         return s
 
@@ -85,6 +89,6 @@ class State:
             return True
         if self.entails(z3.Not(c)):
             return False
-        if self.spec or self.nofork:
+        if (self.spec and not self.specfork) or self.nofork:
             raise Unsupported('expression needs a case split on %s where forking is not possible' % c)
         raise Fork(c)
